@@ -51,6 +51,14 @@ theorem C16_reader_outside_loop : consoleReadersCreatedInLoop = 0 ∧ consoleRea
 /-- Regenerated fact: no accessor of the evaluation environment writes through `env.Node`. -/
 theorem C16_env_read_only : envMethodsMutatingNode = [] := by decide
 
+/-- every package-level variable of the packages a query runs through (cmd, graph, graph/java, model and the hand-written
+    listener; regenerated): the cobra commands, two version strings and the verbose flags. No cache, memo table, pool or
+    counter lives between two queries of one process; what a query computes it computes from its own text and the graph. -/
+theorem C16_package_state : packageLevelVars =
+    ["cmd/ci.go:ciCmd &cobra.Command", "cmd/query.go:queryCmd &cobra.Command", "cmd/root.go:rootCmd &cobra.Command",
+     "cmd/root.go:verboseFlag bool", "cmd/scan.go:scanCmd &cobra.Command", "cmd/version.go:GitCommit literal:STRING",
+     "cmd/version.go:Version literal:STRING", "cmd/version.go:versionCmd &cobra.Command", "graph/util.go:verboseFlag bool"] := by decide
+
 /-! ### history independence -/
 
 /-- One query against the loaded graph: evaluation receives the graph and returns it untouched. -/
